@@ -218,9 +218,15 @@ def rule_bucket(run, F, cfg):
            "the rebuilt map is installed as self.filter_map", config=cfg)
     # optimizer::optimize returns fused ++ unfused (nothing dropped)
     o = F.fn("optimizer::optimize")
-    ap = o.calls(r"^std::vec::Vec::append$")
-    run.ob("C05.2.bucket-preservation", "nothing-dropped", len(ap) >= 2,
-           "optimizer::optimize appends both the fused and the unfused rules to its result", config=cfg)
+    # both components of apply_optimisation's (fused, unfused) result reach the returned vector: as its initial value
+    # or through append / extend onto it
+    comps = set(re.findall(r"optimizer::apply_optimisation\(.*?\)\.([01])\b", o.expr_local(0)))
+    for b, t in o.calls(r"^std::vec::Vec::(append|extend|extend_from_slice)$|Extend<.*>>::extend$"):
+        if len(t["args"]) >= 2:
+            comps |= set(re.findall(r"optimizer::apply_optimisation\(.*?\)\.([01])\b", o.expr_operand(t["args"][1])))
+    run.ob("C05.2.bucket-preservation", "nothing-dropped", comps == {"0", "1"},
+           "optimizer::optimize returns the fused AND the unfused rules of apply_optimisation "
+           f"(components of its result that reach the returned vector: {sorted(comps)})", config=cfg)
     a = F.fn("optimizer::apply_optimisation")
     # groups of size 1 go back to `negative`
     cl = F.closures_of("optimizer::apply_optimisation")
@@ -312,6 +318,29 @@ def rule_disjunction(run, F, cfg):
            "every element of v; nothing goes through FilterPart::string_view (which joins an AnyOf with `|` "
            "into one literal that can never match)" + (f"; string_view called at {joined}" if joined else ""),
            site=joined[0] if joined else fus.loc(0), config=cfg, detail=f"carried: {carried}")
+    # (a+) the two "needs the regex engine" bits of the fused rule are set when ANY member needs it: a group that mixes
+    # wildcard patterns with plain ones (or /regex/ rules with ordinary ones) has to be compiled, otherwise the `*` / `^`
+    # of a member would be compared as literal text (mutation run 6: `any` -> `all` passes the pinned suite)
+    flags = {}
+    for b, t in fus.calls(r"::set$"):
+        if len(t["args"]) == 3:
+            mm = re.search(r"NetworkFilterMask::(IS_REGEX|IS_COMPLETE_REGEX)\b", fus.expr_operand(t["args"][1]))
+            if mm:
+                flags[mm.group(1)] = fus.expr_operand(t["args"][2])
+    want_pred = {"IS_REGEX": "is_regex", "IS_COMPLETE_REGEX": "is_complete_regex"}
+    for bit, pred in want_pred.items():
+        e = flags.get(bit, "")
+        m_any = re.match(r"^<std::slice::Iter<'a, T> as std::iter::Iterator>::any\(core::slice::iter\(arg:\w+\), (fn:[\w:]+|closure\[([^\]]+)\]\(\))\)$", e)
+        okf = False
+        if m_any:
+            if m_any.group(1).startswith("fn:"):
+                okf = m_any.group(1).endswith("::" + pred)
+            else:
+                c = F.fns.get(m_any.group(2))
+                okf = c is not None and bool(re.match(r"^filters::network::NetworkFilterMaskHelper::" + pred + r"\(arg:\w+\)$", c.expr_local(0)))
+        run.ob("C05.4.disjunction", f"fused-flag-is-any-member:{bit}", okf,
+               f"fusion sets {bit} of the fused rule to `filters.iter().any({pred})` (found `{e[-150:]}`): a fused group is "
+               "matched through the regex engine as soon as one member needs it", site=fus.loc(0), config=cfg)
     # (a'') the fused pattern keeps ALL collected alternatives: Simple(p[0]) only when there is exactly one,
     # Empty only when there is none (or a member is Empty), AnyOf(all) otherwise
     parts = []
@@ -319,20 +348,37 @@ def rule_disjunction(run, F, cfg):
         if st["k"] == "assign" and st["rv"]["k"] == "agg" and str(st["rv"].get("adt", "")).endswith("FilterPart"):
             c = dominating_conditions(fus, b, render=fus.vexpr_operand)
             ops = [fus.vexpr_operand(o) for o in st["rv"]["ops"]]
-            ln = [v for k, v in c.items() if re.match(r"^\(std::vec::Vec::len\(\$\w+\) Eq 1\)$", k)]
-            em = next((v for k, v in c.items() if re.match(r"^std::vec::Vec::is_empty\(\$\w+\)$", k)), None)
+            # how many patterns were collected on the way here: 0 / 1 / 2 (= two or more), whatever test was used
+            sizes = {0, 1, 2}
+            for k, v in c.items():
+                if re.match(r"^std::vec::Vec::is_empty\(\$\w+\)$", k):
+                    sizes &= {0} if v == 1 else {1, 2}
+                elif re.match(r"^\(std::vec::Vec::len\(\$\w+\) Eq ([01])\)$", k):
+                    n_ = int(re.match(r"^\(std::vec::Vec::len\(\$\w+\) Eq ([01])\)$", k).group(1))
+                    sizes &= {n_} if v == 1 else ({0, 1, 2} - {n_})
+                elif re.match(r"^std::vec::Vec::len\(\$\w+\)$", k):
+                    if v in (0, 1):
+                        sizes &= {v}
+                    elif isinstance(v, tuple) and v[0] == "not":
+                        sizes -= set(x for x in v[1] if x in (0, 1))
+                        if any(x >= 2 for x in v[1]):
+                            sizes = set()  # a test on a particular larger length: not modelled
+                    else:
+                        sizes = set()
             anyv = [v for k, v in c.items() if re.search(r"Iterator>::any\(core::slice::iter\(\$\w+\)", k)]
-            parts.append((st["rv"]["variant"], ops, em, ln[0] if ln else None, anyv[0] if anyv else None))
+            parts.append((st["rv"]["variant"], ops, sizes, anyv[0] if anyv else None))
     # the vector of collected patterns, whatever it is called: the operand of the AnyOf construction
-    pv = next((ops[0] for var, ops, em, ln, anyv in parts if var == "AnyOf" and len(ops) == 1 and re.match(r"^\$\w+$", ops[0])), None)
+    pv = next((ops[0] for var, ops, sizes, anyv in parts if var == "AnyOf" and len(ops) == 1 and re.match(r"^\$\w+$", ops[0])), None)
     good = pv is not None
-    for var, ops, em, ln, anyv in parts:
+    first_of = (r"(index\(%s, 0\)\)?|std::vec::Vec::(remove|swap_remove)\(%s, 0\)|std::vec::Vec::pop\(%s\)(@Some\.0)?)$"
+                % ((re.escape(pv or "$?"),) * 3))
+    for var, ops, sizes, anyv in parts:
         if var == "Empty":
-            good = good and (anyv == 1 or em == 1)
+            good = good and (anyv == 1 or sizes == {0})
         elif var == "Simple":
-            good = good and ln == 1 and len(ops) == 1 and bool(re.search(r"index\(" + re.escape(pv or "$?") + r", 0\)\)?$", ops[0]))
+            good = good and sizes == {1} and len(ops) == 1 and bool(re.search(first_of, ops[0]))
         elif var == "AnyOf":
-            good = good and ops == [pv] and em == 0 and ln == 0
+            good = good and ops == [pv] and sizes == {2}
         else:
             good = False
     run.ob("C05.4.disjunction", "all-alternatives-kept", good and sorted(p[0] for p in parts) == ["AnyOf", "Empty", "Empty", "Simple"],
